@@ -3,4 +3,4 @@ CHECK_DEADLOCK FALSE
 INVARIANT OnePatchPerValidCell
 INVARIANT ValuePairs
 INVARIANT TooManyDimsRefused
-CONSTANT Big = FALSE
+CONSTANT Big = TRUE
